@@ -27,10 +27,14 @@ def _canonical_nat(it, fv, args, kwargs):
     return S.mk_bool(z3.And(Py.is_str(s), z3.InRe(Py.s(s), S.RE_CANON_NAT)))
 
 
+encode_abs = z3.Function("pointer_encode", Py, z3.StringSort())
+
+
 def pointer_obj(it, parts=None):
     f = {}
     if parts is not None:
         f["parts"] = parts
+        f["_s"] = Py.str(encode_abs(parts))  # representation invariant: _s == _encode(parts)
     return it.alloc(ptr.JSONPointer, f, origin="QUERY")
 
 
@@ -134,8 +138,6 @@ def _resolve_parent(ctx):
 
 # ------------------------------------------------------------------ pointer algebra (C14), match -> pointer (C03, C20)
 
-encode_abs = z3.Function("pointer_encode", Py, z3.StringSort())
-
 
 @call_contract("jsonpath.pointer:JSONPointer._encode")
 def _encode_contract(it, fv, args, kwargs):
@@ -168,7 +170,7 @@ def two_pointers(ctx):
     return a, b
 
 
-@contract("JSONPointer.is_relative_to==spec", ("C14", "C05"), [P + "is_relative_to"], replay=("relative_replay", []))
+@contract("JSONPointer.is_relative_to==spec", ("C14", "C05"), [P + "is_relative_to"], replay=("relative_replay", [], "relative_candidates"))
 def _is_relative_to(ctx):
     a, b = two_pointers(ctx)
     ctx.equiv(
